@@ -148,6 +148,11 @@ C08Family == { [Scn("C08", [F(t, o) EXCEPT !.form = "pos"], ins, cs) EXCEPT !.mo
                  t \in C08Targets, o \in {<<>>, <<L("", "T3", "")>>}, ins \in C08Inputs,
                  cs \in Digraphs(IF Size = 1 THEN 2 ELSE 4), fl \in C08Filters, fo \in (IF Size = 1 THEN {"none", "reject"} ELSE {"none", "accept", "reject"}) }
 
+\* known finding K2: a NAMED parameter of interface type that Redefine hands on as a declared input (the redefined function
+\* passes the value on under its dynamic type, which the named interface parameter does not accept)
+C08k == { [Scn("C08k", [F(t, <<>>) EXCEPT !.form = "struct"], ins, <<>>) EXCEPT !.mode = "redefine"] :
+            t \in {<<L("a", "I1", "")>>, <<L("a", "I1", ""), L("", "T2", "")>>}, ins \in {<<>>, <<L("", "T2", "")>>} }
+
 -----------------------------------------------------------------------------
 \* C02 / C13 / C06: multi-input converters with unreachable prerequisites, mutual and self cycles
 M2(a, b, o) == FP(<<L("", a, "")>>  \o <<L("", b, "")>>, <<L("", o, "")>>)
@@ -275,7 +280,7 @@ C16Family == C16Sub \cup C16Nil \cup C16NoParam \cup C16Reuse \cup UNION { { [Sc
 FamilyScenarios == CASE Family = "C03" -> C03Family \cup SameSigFamily
                      [] Family = "C07" -> C07Family
                      [] Family = "C05" -> C05Family \cup CycleFamily \cup MatchFamily \cup XFamily
-                     [] Family = "C08" -> C08Family
+                     [] Family = "C08" -> C08Family \cup C08k
                      [] Family = "C02" -> CycleFamily \cup C05Family \cup MatchFamily \cup XFamily
                      [] Family = "C06" -> CycleFamily \cup C04Family
                      [] Family = "C04" -> C04Family
